@@ -315,9 +315,10 @@ def patch_joserfc_names(mapping):
     for mname, mod in list(sys.modules.items()):
         if not mname.startswith("joserfc") or mod is None:
             continue
-        for name, (orig, fake) in mapping.items():
-            if getattr(mod, name, None) is orig:
-                out.append((mod, name, fake))
+        for attr, val in list(vars(mod).items()):
+            for name, (orig, fake) in mapping.items():
+                if val is orig:                      # by identity: an aliased or moved import is found as well
+                    out.append((mod, attr, fake))
     return out
 
 
@@ -741,35 +742,23 @@ class _CipherCtx:
         gcm = isinstance(self.c.mode, FakeGCM)
         kind = "gcm" if gcm else "cbc"
         if self.enc:
+            if gcm:
+                ct, self.tag = _gcm_encrypt(env, self.c.alg.key, self.c.mode.iv, self.aad, self.data)
+                return ct
+            n = _known_len(self.data)
+            if n is not None and n % 16 != 0:
+                raise ValueError("The length of the provided data is not a multiple of the block length.")
             i = len(env.of(kind + "_encrypt"))
-            if gcm:
-                # GCM is a stream mode: the ciphertext is exactly as long as the plaintext (empty for an empty plaintext)
-                ct = ((b"G%d" % i) + b"c" * 8)[:len(self.data)] if isinstance(self.data, (bytes, bytearray)) and len(self.data) < 8 else b"GC%d-long" % i
-            else:
-                ct = b"CC%d-16-octets--" % i
-            r = env.rec(kind + "_encrypt", key=self.c.alg.key, iv=self.c.mode.iv, aad=self.aad, pt=self.data, ct=ct)
-            if gcm:
-                self.tag = b"GCMTAG-16-OCTET%d" % i
-                r["tag"] = self.tag
+            ct = b"CC%d-16-octets--" % i
+            env.rec(kind + "_encrypt", key=self.c.alg.key, iv=self.c.mode.iv, aad=self.aad, pt=self.data, ct=ct)
             return ct
+        if gcm:
+            return _gcm_decrypt(env, self.c.alg.key, self.c.mode.iv, self.aad, self.data, getattr(self.c.mode, "tag", None))
         r = env.rec(kind + "_decrypt", key=self.c.alg.key, iv=self.c.mode.iv, aad=self.aad, ct=self.data,
                     tag=getattr(self.c.mode, "tag", None))
-        if gcm:
-            if env.adv:
-                r["verdict"] = env.verdict()
-                if not r["verdict"]:
-                    raise InvalidTag()
-                r["out"] = env.next_cek() if self.aad is None else env.plaintext     # no AAD = AES-GCM key wrap
-                return r["out"]
-            for e in env.of("gcm_encrypt"):
-                if e["key"] == r["key"] and e["iv"] == r["iv"] and e["aad"] == r["aad"] and e["ct"] == r["ct"] and e["tag"] == r["tag"]:
-                    r["verdict"] = True
-                    return e["pt"]
-            r["verdict"] = False
-            raise InvalidTag()
         # CBC has no authentication of its own
         if env.adv:
-            r["out"] = env.plaintext
+            r["out"] = pkcs7(env.plaintext)
             return r["out"]
         for e in env.of("cbc_encrypt"):
             if e["key"] == r["key"] and e["iv"] == r["iv"] and e["ct"] == r["ct"]:
@@ -777,24 +766,111 @@ class _CipherCtx:
         return b"garbage-from-wrong-key"
 
 
+def _gcm_decrypt(env, key, iv, aad, ct, tag):
+    r = env.rec("gcm_decrypt", key=key, iv=iv, aad=aad, ct=ct, tag=tag)
+    if env.adv:
+        r["verdict"] = env.verdict()
+        if not r["verdict"]:
+            raise InvalidTag()
+        r["out"] = env.next_cek() if aad is None else env.plaintext     # no AAD = AES-GCM key wrap
+        return r["out"]
+    for e in env.of("gcm_encrypt"):
+        if e["key"] == r["key"] and e["iv"] == r["iv"] and e["aad"] == r["aad"] and e["ct"] == r["ct"] and e["tag"] == r["tag"]:
+            r["verdict"] = True
+            return e["pt"]
+    r["verdict"] = False
+    raise InvalidTag()
+
+
+def _gcm_encrypt(env, key, iv, aad, pt):
+    i = len(env.of("gcm_encrypt"))
+    # GCM is a stream mode: the ciphertext is exactly as long as the plaintext (empty for an empty plaintext)
+    ct = ((b"G%d" % i) + b"c" * 8)[:len(pt)] if isinstance(pt, (bytes, bytearray)) and len(pt) < 8 else b"GC%d-long" % i
+    tag = b"GCMTAG-16-OCTET%d" % i
+    env.rec("gcm_encrypt", key=key, iv=iv, aad=aad, pt=pt, ct=ct, tag=tag)
+    return ct, tag
+
+
+class FakeAESGCM:
+    """stand-in for the one-shot cryptography...aead.AESGCM (not used by the pinned tree; a refactoring may move to it):
+    encrypt -> ciphertext || 16-octet tag, decrypt takes the LAST 16 octets as the tag"""
+    def __init__(self, key):
+        if _blen(key) not in (16, 24, 32):
+            raise ValueError("AESGCM key must be 128, 192, or 256 bits.")
+        self.key = key
+
+    def encrypt(self, nonce, data, associated_data):
+        if not 8 <= len(nonce) <= 128:
+            raise ValueError("Nonce must be between 8 and 128 bytes")
+        ct, tag = _gcm_encrypt(CUR, self.key, nonce, associated_data, data)
+        return ct + tag
+
+    def decrypt(self, nonce, data, associated_data):
+        if not 8 <= len(nonce) <= 128:
+            raise ValueError("Nonce must be between 8 and 128 bytes")
+        if len(data) < 16:
+            raise InvalidTag()
+        return _gcm_decrypt(CUR, self.key, nonce, associated_data, data[:-16], data[-16:])
+
+
 class FakePKCS7:
+    """PKCS#7 padding, faithful for octet strings of known length (1..block octets are always added; unpadding checks and strips
+    them); for opaque data of unknown length the padding is a marker that only the matching unpadder removes."""
     def __init__(self, block_size):
-        self.block_size = block_size
+        self.block = block_size // 8
 
     def padder(self):
-        return _Pad()
+        return _Pad(self.block, True)
 
     def unpadder(self):
-        return _Pad()
+        return _Pad(self.block, False)
+
+
+def _known_len(d):
+    try:
+        return len(d)
+    except TypeError:
+        return None
 
 
 class _Pad:
+    def __init__(self, block=16, padding=True):
+        self.block, self.padding, self.d = block, padding, b""
+
     def update(self, d):
         self.d = d
-        return d
+        return d if self.padding else b""
 
     def finalize(self):
-        return b""
+        d, B = self.d, self.block
+        n = _known_len(d)
+        if self.padding:
+            if n is None:
+                return Opaque("pkcs7pad", d)
+            r = n % B
+            for j in range(B):               # (concrete pad length per path)
+                if r == j:
+                    return bytes([B - j]) * (B - j)
+            raise HarnessError("unreachable")
+        # unpadding
+        if isinstance(d, Opaque) and n is None:
+            if d.kind == "cat" and len(d.parts) == 2 and d.cut is None and d.parts[1] == Opaque("pkcs7pad", d.parts[0]):
+                return d.parts[0]
+            raise ValueError("Invalid padding bytes.")
+        if n == 0 or n % B != 0:
+            raise ValueError("Invalid padding bytes.")
+        k = d[n - 1]
+        for j in range(1, B + 1):
+            if k == j:
+                if d[n - j:] != bytes([j]) * j:
+                    raise ValueError("Invalid padding bytes.")
+                return d[:n - j]
+        raise ValueError("Invalid padding bytes.")
+
+
+def pkcs7(data, block=16):
+    p = _Pad(block, True)
+    return p.update(data) + p.finalize()
 
 
 def fake_aes_key_wrap(wrapping_key, key_to_wrap, backend=None):
@@ -964,10 +1040,12 @@ def jwe_patches():
     from cryptography.hazmat.primitives.padding import PKCS7
     from cryptography.hazmat.primitives.kdf.pbkdf2 import PBKDF2HMAC
     from cryptography.hazmat.primitives.kdf.concatkdf import ConcatKDFHash
+    from cryptography.hazmat.primitives.ciphers.aead import AESGCM
     import joserfc.jwe  # noqa  (make sure the modules are loaded)
     mapping = {"aes_key_wrap": (aes_key_wrap, fake_aes_key_wrap), "aes_key_unwrap": (aes_key_unwrap, fake_aes_key_unwrap),
                "Cipher": (Cipher, FakeCipher), "AES": (AES, FakeAES), "GCM": (GCM, FakeGCM), "CBC": (CBC, FakeCBC),
-               "PKCS7": (PKCS7, FakePKCS7), "PBKDF2HMAC": (PBKDF2HMAC, FakePBKDF2HMAC), "ConcatKDFHash": (ConcatKDFHash, FakeConcatKDFHash)}
+               "PKCS7": (PKCS7, FakePKCS7), "PBKDF2HMAC": (PBKDF2HMAC, FakePBKDF2HMAC), "ConcatKDFHash": (ConcatKDFHash, FakeConcatKDFHash),
+               "AESGCM": (AESGCM, FakeAESGCM)}
     try:
         import joserfc.drafts.jwe_chacha20  # noqa
         from Crypto.Cipher import ChaCha20_Poly1305
